@@ -346,6 +346,8 @@ def expand(path, seen=None, defs=None):
             continue
         if skip:
             continue
+        if st.startswith('//@@ subsumes '):
+            continue
         if st.startswith('//@@ define '):
             defs.add(st.split()[2])
             continue
